@@ -32,7 +32,8 @@ func New(s string, fromBit, toBit int32) []byte {
 	}
 
 	fromByte := fromBit >> 3
-	toByte := (toBit + 7) >> 3
+	// int64: toBit + 7 does not fit in int32 for toBit > 1<<31-8
+	toByte := int32((int64(toBit) + 7) >> 3)
 
 	l := toByte - fromByte
 
